@@ -2,6 +2,7 @@
 """C13 -- Bar time accounting is exact under any placement history (DESIGN.md section 4, C13)."""
 from fractions import Fraction
 import copy
+import itertools
 
 from mc import engine
 from mc.engine import BfsSpec
@@ -384,6 +385,91 @@ def gen_fill(shard):
             yield [list(meter), la, i, lb]
 
 
+# ---------------------------------------------------------------------------------------
+# place_at after place / remove-last round trips (start beats that are accumulated floats)
+# ---------------------------------------------------------------------------------------
+DRIFT_SYMBOLS = {"q": "4", "t": "8*3:2", "f": "4*5:4", "s": "16*7:4"}
+_DRIFT_NOTES = [("F", 5), ("A", 5), ("B", 5), ("D", 6), ("F", 6), ("A", 6), ("B", 6), ("D", 7), ("F", 7), ("A", 7), ("B", 7), ("D", 8)]
+
+
+def run_place_at_drift(case):
+    """case = [meter, program]: program is a string over q/t/f/s (place a note of that value) and '-' (remove the last
+    entry); afterwards notes are added at the exact start beat of every sounding entry in turn: only that entry may change."""
+    S = engine.S
+    meter, prog = case
+    bar = Bar("C", tuple(meter))
+    k = 0
+    for ch in prog:
+        if ch == "-":
+            if len(bar):
+                bar.remove_last_entry()
+        else:
+            k += 1
+            bar.place_notes(NoteContainer(Note("C", 2 + k % 3)) if k % 4 else None, V.BY_LABEL[DRIFT_SYMBOLS[ch]][1])
+    S.trans(len(prog))
+    n = len(bar.bar)
+    if n > len(_DRIFT_NOTES):
+        raise engine.HarnessError("more entries than probe notes")
+    starts = [e[0] for e in bar.bar]
+    if len(set(starts)) != n:
+        raise engine.HarnessError("two entries share a start beat")
+    for j in range(n):
+        if bar.bar[j][2] is None:
+            continue
+        before = snapshot(bar)
+        name, octv = _DRIFT_NOTES[j]
+        bar.place_notes_at(Note(name, octv), starts[j])
+        S.trans(1)
+        after = snapshot(bar)
+        site = "place_notes_at(%s-%d, start beat of entry %d) after the program %r" % (name, octv, j, prog)
+        ContentSpec._only_entry_changed(S, before, after, j, site)
+        want = sorted_by_pitch((before[0][j][2] or []) + [(name, octv)])
+        if after[0][j][2] != want:
+            S.problem(site + ": content of the entry", want, after[0][j][2])
+        S.count("place_at_after_round_trips")
+    S.outcome((n, sum(1 for a, b in zip(bar.bar, bar.bar[1:]) if a[0] + 1.0 / a[1] != b[0])))
+    if any(a[0] + 1.0 / a[1] != b[0] for a, b in zip(bar.bar, bar.bar[1:])):
+        S.count("bars_whose_next_start_differs_from_start_plus_length_in_the_last_bit")
+
+
+def gen_place_at_drift(shard):
+    """shard = (meter, alphabet, max length, first two symbols): every program with that prefix that ends in a placement"""
+    meter, alphabet, maxlen, prefix = shard
+    for n in range(0, maxlen - len(prefix) + 1):
+        for tail in itertools.product(alphabet, repeat=n):
+            prog = prefix + "".join(tail)
+            if prog[-1] != "-" and prog[0] != "-":
+                yield [list(meter), prog]
+
+
+def run_setitem_shared(case):
+    """case = [copies, index, kind]: the caller placed one NoteContainer object `copies` times in a bar (and once in a
+    second bar); bar[index] = new content replaces that entry's content only."""
+    S = engine.S
+    copies, index, kind = case
+    shared = NoteContainer(["C-4", "E-4"])
+    bar = Bar("C", (4, 4))
+    for _ in range(copies):
+        bar.place_notes(shared, 4)
+    other = Bar("G", (4, 4))
+    other.place_notes(shared, 2)
+    before, other_before = snapshot(bar), snapshot(other)
+    content, expect = make_content(kind)
+    bar[index] = content
+    S.trans(1)
+    after = snapshot(bar)
+    site = "bar[%d] = %s in a bar whose %d entries hold one and the same NoteContainer object" % (index, kind, copies)
+    ContentSpec._only_entry_changed(S, before, after, index, site)
+    if after[0][index % copies][2] != sorted_by_pitch(expect):
+        S.problem(site + ": content of the entry", sorted_by_pitch(expect), after[0][index % copies][2])
+    if snapshot(other) != other_before:
+        S.problem(site + ": another bar holding the same object", other_before, snapshot(other))
+    if content_of(shared) != [("C", 4), ("E", 4)]:
+        S.problem(site + ": the caller's NoteContainer", [("C", 4), ("E", 4)], content_of(shared))
+    S.count("setitem_on_shared_containers")
+    S.outcome((copies, index, kind))
+
+
 def run_homogeneous(case):
     """every vocabulary value (all 80) v, v, ... until the model says no room, plus one beyond."""
     S = engine.S
@@ -461,6 +547,8 @@ CLAUSES = {
     "fill": run_fill,
     "homogeneous": run_homogeneous,
     "set_meter": run_set_meter,
+    "place_at_drift": run_place_at_drift,
+    "setitem_shared": run_setitem_shared,
 }
 
 
@@ -497,7 +585,19 @@ def explore(ctx):
         units = [0, 1, 2, 3, 4, 5, 6, 8, 16, 64, 0.5, 1.5, 4.0, 6.0]
         cases = [[c, u, False] for c in counts for u in units] + [[0, 0, True], [4, 4, True]]
         ctx.serial("set_meter", cases)
+    if not only or "place_at_drift" in only:
+        long_n, wide_n = ctx.pick(11, 12), ctx.pick(8, 9)
+        shards = [((4, 4), "qt-", long_n, a + b) for a in "qt" for b in "qt-"]
+        shards += [((4, 4), "qtfs-", wide_n, a + b) for a in "qtfs" for b in "qtfs-"]
+        shards += [((0, 0), "qtf-", wide_n, a + b) for a in "qtf" for b in "qtf-"]
+        ctx.bound("place_at_drift", {"programs over {q,t,-}": "length <= %d" % long_n, "over {q,t,f,s,-} in 4/4 and {q,t,f,-} in (0,0)": "length <= %d" % wide_n,
+                                     "symbols": DRIFT_SYMBOLS})
+        ctx.product("place_at_drift", shards, gen_place_at_drift)
+    if not only or "setitem_shared" in only:
+        ctx.serial("setitem_shared", [[c, i, k] for c in (2, 3, 4) for i in list(range(c)) + [-1] for k in ("str", "note", "list", "nc", "empty_list")])
     if not only:
+        ctx.guard("place_notes_at after round trips", ctx.counter("place_at_after_round_trips"), 100000)
+        ctx.guard("bars with a start beat off by a last bit", ctx.counter("bars_whose_next_start_differs_from_start_plus_length_in_the_last_bit"), 100)
         ctx.guard("accepted placements", ctx.counter("accepted"), 1000)
         ctx.guard("refused placements", ctx.counter("refused"), 1000)
         ctx.guard("placements exactly at capacity", ctx.counter("accepted_exactly_at_capacity"), 100)
